@@ -5,6 +5,8 @@ import (
 	"go/token"
 	"go/types"
 	"strings"
+	"unicode"
+	"unicode/utf8"
 
 	"golang.org/x/tools/go/ssa"
 
@@ -259,62 +261,52 @@ func ruleNoGroupSkippedByLength(c *eng.Ctx) {
 // R11.13 [C11]
 func ruleRegionPagesByMembership(c *eng.Ctx) {
 	const R = "R11.13-REGION-PAGES-BY-MEMBERSHIP"
-	c.Rule(R, "layout.containsPage answers yes only where an element of the region's page list equals the page asked for: a region applied to every page between its first and its last page deletes, on a page in between that has no marginal text, the body line nearest to the edge when it looks like a page number", 1, 0)
+	c.Rule(R, "layout.containsPage, evaluated on page lists (empty, one page, ascending with gaps, descending) and every page from 0 to 7: the answer is yes exactly for the pages that are in the list. A region applied to every page between its first and its last page deletes, on a page in between that has no marginal text, the body line nearest to the edge when it looks like a page number", 1, 0)
 	fn := c.P.Func("layout.containsPage")
-	if fn == nil {
+	if fn == nil || len(fn.Params) != 2 {
 		c.Ok(R, "layout.containsPage", token.NoPos, "no such helper: not evaluated")
 		return
 	}
-	var page ssa.Value
-	for _, p := range fn.Params {
-		if bt, ok := p.Type().Underlying().(*types.Basic); ok && bt.Info()&types.IsInteger != 0 {
-			page = p
-		}
+	listIdx, pageIdx := 0, 1
+	if _, ok := fn.Params[0].Type().Underlying().(*types.Slice); !ok {
+		listIdx, pageIdx = 1, 0
 	}
-	if page == nil {
-		c.Ok(R, "layout.containsPage", fn.Pos(), "no integer parameter: not evaluated")
+	if _, ok := fn.Params[listIdx].Type().Underlying().(*types.Slice); !ok {
+		c.Ok(R, "layout.containsPage", fn.Pos(), "no list parameter: not evaluated")
 		return
 	}
-	ok := true
-	var pos token.Pos = fn.Pos()
-	for _, r := range eng.Returns(fn) {
-		vals := eng.ReturnValues(r)
-		if len(vals) != 1 {
-			continue
-		}
-		k, isC := vals[0].(*ssa.Const)
-		if isC && k.Value != nil && k.Value.ExactString() == "false" {
-			continue
-		}
-		if isC {
-			// return true: under element == page
-			if !eng.GuardedBy(fn, r.Block(), func(f eng.Fact) bool {
-				op, x, y, okc := f.Cmp()
-				return okc && op == token.EQL && (x == page || y == page)
-			}) {
-				ok = false
-				pos = r.Pos()
-			}
-			continue
-		}
-		// a computed answer: accepted when it is a library membership test (slices.Contains, sort.SearchInts + equality)
-		isMember := false
-		for v := range eng.Slice(vals[0], func(*ssa.Call) bool { return true }) {
-			if call, okc := v.(*ssa.Call); okc {
-				if nm := eng.CalleeName(call); strings.HasPrefix(nm, "slices.Contains") || strings.HasPrefix(nm, "slices.Index") || strings.HasPrefix(nm, "slices.BinarySearch") {
-					isMember = true
+	n, bad, skipped := 0, "", ""
+	for _, list := range [][]int64{nil, {0}, {3}, {0, 2, 5}, {1, 3}, {5, 2, 0}, {0, 1, 2, 3}, {2, 6}} {
+		for page := int64(0); page <= 7 && bad == "" && skipped == ""; page++ {
+			var elems []any
+			want := false
+			for _, v := range list {
+				elems = append(elems, v)
+				if v == page {
+					want = true
 				}
 			}
-			if b, okb := v.(*ssa.BinOp); okb && b.Op == token.EQL && (b.X == page || b.Y == page) {
-				isMember = true
+			args := make([]any, 2)
+			args[listIdx] = eng.SliceOf(elems...)
+			args[pageIdx] = page
+			got, err := eng.NewEvaluator().Call(fn, args, 0)
+			if err != nil && !err.Panic {
+				skipped = err.Msg
+				break
+			}
+			n++
+			if err != nil {
+				bad = fmt.Sprintf("containsPage(%v, %d): %s", list, page, err.Msg)
+			} else if g, ok := got.(bool); !ok || g != want {
+				bad = fmt.Sprintf("containsPage(%v, %d) = %v", list, page, got)
 			}
 		}
-		if !isMember {
-			ok = false
-			pos = r.Pos()
-		}
 	}
-	c.Check(ok, R, "layout.containsPage#membership", pos, "yes only for a page that is in the list", "containsPage answers yes for a page that was not compared equal with an element of the list (a range test between the first and the last page): the region is applied to pages it was never seen on, and a body line near the edge of such a page that looks like a page number is deleted")
+	if skipped != "" {
+		c.Ok(R, "layout.containsPage", fn.Pos(), "not evaluated: "+skipped)
+		return
+	}
+	c.Check(bad == "", R, "layout.containsPage#membership", fn.Pos(), fmt.Sprintf("%d lists and pages evaluated", n), "containsPage does not answer membership ("+bad+"): a region is applied to pages it was never seen on (or not to pages it was seen on), and a body line near the edge of such a page that looks like a page number is deleted")
 }
 
 // isStringWrite: the call appends a string to a text that is being built: WriteString on a builder or buffer, or
@@ -1741,11 +1733,16 @@ outer:
 // R5.20 [C05, C03]
 func ruleDecodersLeaveInput(c *eng.Ctx) {
 	const R = "R5.20-DECODER-LEAVES-INPUT"
-	c.Rule(R, "no function of internal/filters that takes the encoded bytes writes through that slice (an element store, a copy into it, an append onto a shortened re-slice of it such as data[:0]): the input is Stream.Data, which the stream keeps and decodes again on the next call, and inside one call an output that grows faster than the input is read ('z' is one character for four bytes) overwrites the characters not yet read", 4, 0)
+	c.Rule(R, "no exported function of internal/filters that takes the encoded bytes writes through that slice, itself or in a helper it hands the slice to (an element store, a copy into it, an append onto a shortened re-slice of it such as data[:0]): the input is Stream.Data, which the stream keeps and decodes again on the next call, and inside one call an output that grows faster than the input is read ('z' is one character for four bytes) overwrites the characters not yet read", 4, 0)
 	eff := eng.EffectsOf(c.P)
 	n := 0
 	for _, fn := range c.P.ModuleFuncs() {
 		if fn.Blocks == nil || fn.Pkg == nil || fn.Parent() != nil || eng.ShortPath(fn.Pkg.Pkg.Path()) != "internal/filters" {
+			continue
+		}
+		// the entry points: what they are handed is the stream's data (helpers work on scratch slices of their callers,
+		// and a write they make through the entry point's input is attributed to the entry point)
+		if obj, ok := fn.Object().(*types.Func); !ok || !obj.Exported() {
 			continue
 		}
 		for i, p := range fn.Params {
@@ -1893,4 +1890,819 @@ func ruleSniffersAgree(c *eng.Ctx) {
 		return
 	}
 	c.Check(bad == "", R, "format#sniffers-agree", magic.Pos(), fmt.Sprintf("%d inputs evaluated through both entry points", n), "the content sniffers disagree with the content or with each other: "+bad+"; a valid document is no longer recognised as its own format through that entry point and is refused under its own extension")
+}
+
+// ---------------------------------------------------------------------------------------------------------------
+// R14.16 every field of a CSV row is looked up by the name of its column.
+
+// R14.16 [C14]
+func ruleRowFieldsByColumnName(c *eng.Ctx) {
+	const R = "R14.16-ROW-FIELDS-BY-COLUMN-NAME"
+	c.Rule(R, "in rag.(*Exporter).chunkToCSVRow every string put into the row is the result of a call that is handed an element of the columns list (the header the row is written under), and the columns list is never cut with a constant offset: the header is built from the configuration (text column present or not, selected metadata), so fields appended by position agree with it only for the configuration the author had in mind; with IncludeText=false a fixed offset skips one column, every row is one field short and the values sit under the wrong names", 1, 0)
+	fn := c.P.Func("rag.(*Exporter).chunkToCSVRow")
+	if fn == nil {
+		c.Ok(R, "rag.(*Exporter).chunkToCSVRow", token.NoPos, "no such function: not evaluated")
+		return
+	}
+	var columns *ssa.Parameter
+	for _, p := range fn.Params {
+		if sl, ok := p.Type().Underlying().(*types.Slice); ok {
+			if bt, ok := sl.Elem().Underlying().(*types.Basic); ok && bt.Info()&types.IsString != 0 {
+				columns = p
+			}
+		}
+	}
+	if columns == nil {
+		c.Ok(R, eng.FuncName(fn), fn.Pos(), "no column list parameter: not evaluated")
+		return
+	}
+	name := eng.FuncName(fn)
+	fromColumn := func(v ssa.Value) bool {
+		for w := range eng.Slice(v, func(*ssa.Call) bool { return true }) {
+			if ia, ok := w.(*ssa.IndexAddr); ok && ia.X == ssa.Value(columns) {
+				return true
+			}
+		}
+		return false
+	}
+	var bad []string
+	n := 0
+	eng.Instrs(fn, true, func(in ssa.Instruction) {
+		switch x := in.(type) {
+		case *ssa.Slice:
+			if x.X == ssa.Value(columns) && x.Low != nil {
+				if k, ok := eng.ConstInt(x.Low); !ok || k != 0 {
+					bad = append(bad, "the column list is cut at "+c.P.Pos(x.Pos()))
+				}
+			}
+		case *ssa.Store:
+			// a string stored into an element of a []string (the row, or the variadic list of an append)
+			ia, ok := x.Addr.(*ssa.IndexAddr)
+			if !ok {
+				return
+			}
+			if bt, ok := x.Val.Type().Underlying().(*types.Basic); !ok || bt.Info()&types.IsString == 0 {
+				return
+			}
+			_ = ia
+			n++
+			if !fromColumn(x.Val) {
+				bad = append(bad, "a field not looked up by column name at "+c.P.Pos(x.Pos()))
+			}
+		}
+	})
+	if n == 0 {
+		c.Ok(R, name, fn.Pos(), "no field store found: not evaluated")
+		return
+	}
+	c.Check(len(bad) == 0, R, name+"#fields", fn.Pos(), fmt.Sprintf("%d field stores, all looked up by column name", n), strings.Join(bad, "; ")+": the row no longer has one field per header column for every configuration (IncludeText=false, an empty metadata list), so a standard CSV parser rejects the file or reads the values under the wrong names")
+}
+
+// ---------------------------------------------------------------------------------------------------------------
+// R1.12 a ToUnicode CMap that parsed is the one that is used.
+
+// R1.12 [C01, C07]
+func ruleParsedCMapKept(c *eng.Ctx) {
+	const R = "R1.12-PARSED-CMAP-KEPT"
+	c.Rule(R, "where a font constructor (or its helper) calls font.ParseToUnicodeCMap, no branch of that function is decided by the content of the CMap that came back (a field of it, its size, a method of it): the only test is whether parsing failed. A CMap judged 'empty' by one of its tables and dropped takes the mappings of its other tables with it (plain bfrange entries live in rangeMappings, not charMappings), and the font falls back to its /Encoding although ToUnicode takes precedence", 1, 0)
+	n := 0
+	for _, fn := range c.P.ModuleFuncs() {
+		if fn.Blocks == nil || fn.Pkg == nil {
+			continue
+		}
+		k := 0
+		for _, ci := range eng.CallsNamed(fn, false, "font.ParseToUnicodeCMap") {
+			call, ok := ci.(*ssa.Call)
+			if !ok {
+				continue
+			}
+			var cm ssa.Value
+			for _, r := range *call.Referrers() {
+				if ex, ok := r.(*ssa.Extract); ok && ex.Index == 0 {
+					cm = ex
+				}
+			}
+			if cm == nil {
+				continue
+			}
+			n++
+			k++
+			bad := ""
+			eng.Instrs(fn, false, func(in ssa.Instruction) {
+				iff, ok := in.(*ssa.If)
+				if !ok {
+					return
+				}
+				for w := range eng.Slice(iff.Cond, func(*ssa.Call) bool { return true }) {
+					switch x := w.(type) {
+					case *ssa.FieldAddr:
+						if x.X == cm {
+							bad = c.P.Pos(iff.Cond.Pos())
+						}
+					case *ssa.Call:
+						for _, a := range eng.ArgsWithRecv(x) {
+							if a == cm {
+								bad = c.P.Pos(iff.Cond.Pos())
+							}
+						}
+					}
+				}
+			})
+			c.Check(bad == "", R, fmt.Sprintf("%s#cmap%d", eng.FuncName(fn), k), ci.Pos(), "the parsed CMap is used whatever it holds", "a branch at "+bad+" is decided by the content of the parsed ToUnicode CMap: a CMap dropped because one of its tables is empty loses the mappings of the others (a CMap of plain bfrange entries has no bfchar entries), and the text is decoded by the /Encoding instead of the ToUnicode CMap")
+		}
+	}
+	if n == 0 {
+		c.Undec(R, "font#ParseToUnicodeCMap", token.NoPos, "no call of font.ParseToUnicodeCMap found")
+	}
+}
+
+// ---------------------------------------------------------------------------------------------------------------
+// R13.12 the size splitter, read on a family of short texts and limits.
+
+func nonSpace(s string) string {
+	var sb strings.Builder
+	for _, r := range s {
+		if !unicode.IsSpace(r) {
+			sb.WriteRune(r)
+		}
+	}
+	return sb.String()
+}
+
+// R13.12 [C13]
+func ruleSplitToSizeEvaluated(c *eng.Ctx) {
+	const R = "R13.12-SPLIT-TO-SIZE-EVALUATED"
+	c.Rule(R, "rag.(*SizeCalculator).SplitToSize, evaluated on a family of short texts (ASCII words, accented and CJK words, emoji, sentences, paragraphs, runs of white space, words longer than the limit) with a hard maximum of 5, 8, 13 and 21 characters: the evaluation ends, the pieces together hold exactly the non-white-space characters of the text in order, every piece is valid UTF-8, and where every word of the text fits the maximum no piece is longer than the maximum", 1, 0)
+	fn := c.P.Func("rag.(*SizeCalculator).SplitToSize")
+	pk := c.P.ByPath["rag"]
+	if fn == nil || pk == nil || len(fn.Params) != 3 {
+		c.Ok(R, "rag.(*SizeCalculator).SplitToSize", token.NoPos, "no such function with (text, boundaries): not evaluated")
+		return
+	}
+	name := eng.FuncName(fn)
+	cv := func(n string) (int64, bool) {
+		cn, ok := pk.Types.Scope().Lookup(n).(*types.Const)
+		if !ok {
+			return 0, false
+		}
+		return eng.ConstInt64(cn.Val())
+	}
+	chars, ok1 := cv("SizeUnitCharacters")
+	hard, ok2 := cv("LimitTypeHard")
+	pt, ok3 := fn.Params[0].Type().Underlying().(*types.Pointer)
+	if !ok1 || !ok2 || !ok3 {
+		c.Ok(R, name, fn.Pos(), "size constants not found: not evaluated")
+		return
+	}
+	calcT := pt.Elem()
+	mkLimit := func(t types.Type, v int64) *eng.EStruct {
+		l := eng.ZeroOf(t).(*eng.EStruct)
+		eng.SetField(l, t, "Value", v)
+		eng.SetField(l, t, "Unit", chars)
+		eng.SetField(l, t, "Type", hard)
+		return l
+	}
+	fieldType := func(t types.Type, name string) types.Type {
+		st, ok := t.Underlying().(*types.Struct)
+		if !ok {
+			return nil
+		}
+		for i := 0; i < st.NumFields(); i++ {
+			if st.Field(i).Name() == name {
+				return st.Field(i).Type()
+			}
+		}
+		return nil
+	}
+	cfgT := fieldType(calcT, "config")
+	if cfgT == nil || fieldType(cfgT, "Max") == nil {
+		c.Ok(R, name, fn.Pos(), "SizeCalculator.config.Max not found: not evaluated")
+		return
+	}
+	limT := fieldType(cfgT, "Max")
+	texts := []string{
+		"alpha beta gamma delta epsilon zeta eta theta",
+		"héllo wörld ünïcode straße café naïve",
+		"世界 你好 日本語 テキスト",
+		"One two. Three four! Five six? Seven.",
+		"para one line\n\npara two line\n\npara three",
+		"abcdefghijklmnopqrstuvwxyz",
+		"ééééééééééééééé",
+		"short abcdefghijklmnopqrstuvwxyz tail",
+		"  a   b \t c \n d  ",
+		"\U0001F600 \U0001F601 \U0001F602 \U0001F923 \U0001F603",
+		"a b c d e f g h i j k l m n o p",
+		"x",
+		"",
+	}
+	n, bad, skipped := 0, "", ""
+	for _, text := range texts {
+		for _, max := range []int64{5, 8, 13, 21} {
+			calc := eng.ZeroOf(calcT).(*eng.EStruct)
+			cfg := eng.ZeroOf(cfgT).(*eng.EStruct)
+			eng.SetField(cfg, cfgT, "Max", mkLimit(limT, max))
+			target := max * 3 / 4
+			if target < 1 {
+				target = 1
+			}
+			eng.SetField(cfg, cfgT, "Target", mkLimit(limT, target))
+			eng.SetField(cfg, cfgT, "Min", mkLimit(limT, 0))
+			eng.SetField(cfg, cfgT, "TokensPerChar", 0.25)
+			eng.SetField(calc, calcT, "config", cfg)
+			loc := &eng.ELoc{V: calc}
+			recv := &eng.EPtr{Get: func() any { return loc.V }, Set: func(v any) { loc.V = v }}
+			ev := eng.NewEvaluator()
+			ev.Steps = 3000000
+			got, err := ev.Call(fn, []any{recv, text, &eng.ESlice{}}, 0)
+			if err != nil && !err.Panic {
+				if strings.Contains(err.Msg, "step budget") {
+					n++
+					bad = fmt.Sprintf("text %q, maximum %d: the split does not end", text, max)
+				} else {
+					skipped = err.Msg
+				}
+				break
+			}
+			n++
+			if err != nil {
+				bad = fmt.Sprintf("text %q, maximum %d: %s", text, max, err.Msg)
+				break
+			}
+			var pieces []string
+			if got != nil {
+				ps, ok := got.(*eng.ESlice)
+				if !ok {
+					skipped = "result is not a list of strings"
+					break
+				}
+				for _, l := range ps.L {
+					sv, _ := l.V.(string)
+					pieces = append(pieces, sv)
+				}
+			}
+			if nonSpace(strings.Join(pieces, "")) != nonSpace(text) {
+				bad = fmt.Sprintf("text %q, maximum %d: the pieces %q do not hold the characters of the text", text, max, pieces)
+				break
+			}
+			fits := true
+			for _, w := range strings.Fields(text) {
+				if int64(len(w)) > max {
+					fits = false
+				}
+			}
+			for _, p := range pieces {
+				if !utf8.ValidString(p) {
+					bad = fmt.Sprintf("text %q, maximum %d: the piece %q is not valid UTF-8 (a character was cut)", text, max, p)
+				}
+				if fits && int64(len(p)) > max {
+					bad = fmt.Sprintf("text %q, maximum %d: the piece %q has %d characters although every word fits the maximum", text, max, p, len(p))
+				}
+			}
+			if bad != "" {
+				break
+			}
+		}
+		if bad != "" || skipped != "" {
+			break
+		}
+	}
+	if skipped != "" {
+		c.Ok(R, name, fn.Pos(), "not evaluated: "+skipped)
+		return
+	}
+	c.Check(bad == "", R, name+"#spec", fn.Pos(), fmt.Sprintf("%d texts and limits evaluated", n), "the size splitter breaks its contract: "+bad)
+}
+
+// ---------------------------------------------------------------------------------------------------------------
+// R13.13 the overlap generator, read on a family of short texts and configurations.
+
+// R13.13 [C13]
+func ruleOverlapEvaluated(c *eng.Ctx) {
+	const R = "R13.13-OVERLAP-EVALUATED"
+	c.Rule(R, "rag.(*OverlapGenerator).GenerateOverlap, evaluated for the character, sentence and paragraph strategies with sizes 1, 2, 8 and 20, minimum 0 and 5, maximum 10 and 40, with and without word preservation, on a family of short texts (ASCII, accented, CJK, emoji, sentences, paragraphs): the overlap is valid UTF-8, is not longer than the configured maximum, and its non-white-space characters are a suffix of those of the text it was taken from", 1, 0)
+	fn := c.P.Func("rag.(*OverlapGenerator).GenerateOverlap")
+	pk := c.P.ByPath["rag"]
+	if fn == nil || pk == nil || len(fn.Params) != 2 {
+		c.Ok(R, "rag.(*OverlapGenerator).GenerateOverlap", token.NoPos, "no such function: not evaluated")
+		return
+	}
+	name := eng.FuncName(fn)
+	pt, ok := fn.Params[0].Type().Underlying().(*types.Pointer)
+	if !ok {
+		c.Ok(R, name, fn.Pos(), "receiver is not a pointer: not evaluated")
+		return
+	}
+	genT := pt.Elem()
+	fieldType := func(t types.Type, name string) (types.Type, int) {
+		st, ok := t.Underlying().(*types.Struct)
+		if !ok {
+			return nil, -1
+		}
+		for i := 0; i < st.NumFields(); i++ {
+			if st.Field(i).Name() == name {
+				return st.Field(i).Type(), i
+			}
+		}
+		return nil, -1
+	}
+	cfgT, _ := fieldType(genT, "config")
+	if cfgT == nil {
+		c.Ok(R, name, fn.Pos(), "OverlapGenerator.config not found: not evaluated")
+		return
+	}
+	var strategies []int64
+	for _, sn := range []string{"OverlapCharacter", "OverlapSentence", "OverlapParagraph"} {
+		cn, ok := pk.Types.Scope().Lookup(sn).(*types.Const)
+		if !ok {
+			c.Ok(R, name, fn.Pos(), "strategy constants not found: not evaluated")
+			return
+		}
+		v, _ := eng.ConstInt64(cn.Val())
+		strategies = append(strategies, v)
+	}
+	resT := fn.Signature.Results().At(0).Type()
+	rp, ok := resT.Underlying().(*types.Pointer)
+	if !ok {
+		c.Ok(R, name, fn.Pos(), "result is not a pointer to a result struct: not evaluated")
+		return
+	}
+	_, textIdx := fieldType(rp.Elem(), "Text")
+	if textIdx < 0 {
+		c.Ok(R, name, fn.Pos(), "result has no Text: not evaluated")
+		return
+	}
+	texts := []string{
+		"The quick brown fox jumps. It lands on the lazy dog. Then it sleeps!",
+		"héllo wörld ünïcode straße café naïve déjà vu",
+		"世界你好。日本語のテキストです。これは文です。",
+		"para one line\n\npara two line here\n\npara three ends now",
+		"\U0001F600\U0001F601\U0001F602\U0001F923\U0001F603\U0001F604\U0001F605",
+		"short",
+		"Dr. Smith went to Washington. He arrived at 3 p.m. and left.",
+		"trailing space and newline \n",
+		"",
+	}
+	n, bad, skipped := 0, "", ""
+outer:
+	for _, text := range texts {
+		for _, strat := range strategies {
+			for _, size := range []int64{1, 2, 8, 20} {
+				for _, minO := range []int64{0, 5} {
+					for _, maxO := range []int64{10, 40} {
+						for _, words := range []bool{false, true} {
+							gen := eng.ZeroOf(genT).(*eng.EStruct)
+							cfg := eng.ZeroOf(cfgT).(*eng.EStruct)
+							eng.SetField(cfg, cfgT, "Strategy", strat)
+							eng.SetField(cfg, cfgT, "Size", size)
+							eng.SetField(cfg, cfgT, "MinOverlap", minO)
+							eng.SetField(cfg, cfgT, "MaxOverlap", maxO)
+							eng.SetField(cfg, cfgT, "PreserveWords", words)
+							eng.SetField(gen, genT, "config", cfg)
+							loc := &eng.ELoc{V: gen}
+							recv := &eng.EPtr{Get: func() any { return loc.V }, Set: func(v any) { loc.V = v }}
+							ev := eng.NewEvaluator()
+							ev.Steps = 2000000
+							got, err := ev.Call(fn, []any{recv, text}, 0)
+							what := fmt.Sprintf("text %q, strategy %d, size %d, min %d, max %d, words %v", text, strat, size, minO, maxO, words)
+							if err != nil && !err.Panic {
+								if strings.Contains(err.Msg, "step budget") {
+									n++
+									bad = what + ": does not end"
+								} else {
+									skipped = err.Msg
+								}
+								break outer
+							}
+							n++
+							if err != nil {
+								bad = what + ": " + err.Msg
+								break outer
+							}
+							res, ok := got.(*eng.EPtr)
+							if !ok || res == nil {
+								skipped = "result not readable"
+								break outer
+							}
+							rs, ok := res.Get().(*eng.EStruct)
+							if !ok {
+								skipped = "result not readable"
+								break outer
+							}
+							ov, _ := rs.F[textIdx].(string)
+							switch {
+							case !utf8.ValidString(ov) && utf8.ValidString(text):
+								bad = fmt.Sprintf("%s: the overlap %q is not valid UTF-8", what, ov)
+							case int64(len(ov)) > maxO:
+								bad = fmt.Sprintf("%s: the overlap %q has %d characters, more than the maximum", what, ov, len(ov))
+							case !strings.HasSuffix(nonSpace(text), nonSpace(ov)):
+								bad = fmt.Sprintf("%s: the overlap %q is not a suffix of the text", what, ov)
+							}
+							if bad != "" {
+								break outer
+							}
+						}
+					}
+				}
+			}
+		}
+	}
+	if skipped != "" {
+		c.Ok(R, name, fn.Pos(), "not evaluated: "+skipped)
+		return
+	}
+	c.Check(bad == "", R, name+"#spec", fn.Pos(), fmt.Sprintf("%d texts and configurations evaluated", n), "the overlap generator breaks its contract: "+bad)
+}
+
+// ---------------------------------------------------------------------------------------------------------------
+// R15.16 the table-cell escapers, read on texts with pipes and line breaks.
+
+// R15.16 [C15]
+func ruleCellEscapersEvaluated(c *eng.Ctx) {
+	const R = "R15.16-CELL-ESCAPERS-EVALUATED"
+	c.Rule(R, "every func(string) string of the module whose name starts with escapeMarkdown (the cell escapers of model, htmldoc, xlsx and pptx), evaluated on texts with pipes, line feeds, CR LF, accented and CJK characters and nothing at all: the answer holds no line feed or carriage return, every pipe in it is preceded by a backslash, and with the escapes taken out its non-white-space characters are those of the text - a cell stays one cell on one line and loses nothing", 4, 0)
+	inputs := []string{"", "plain", "a|b", "|", "||", "a\nb", "a\r\nb", "line one\nline two | with pipe\n", "é|世界", "x | y | z", "tab\there", "ends with pipe|", "\n"}
+	n := 0
+	for _, fn := range c.P.ModuleFuncs() {
+		if fn.Blocks == nil || fn.Pkg == nil || fn.Parent() != nil || !strings.HasPrefix(fn.Name(), "escapeMarkdown") || strings.Contains(eng.ShortPath(fn.Pkg.Pkg.Path()), eng.PositivePkg) {
+			continue
+		}
+		sig := fn.Signature
+		if sig.Recv() != nil || sig.Params().Len() != 1 || sig.Results().Len() != 1 {
+			continue
+		}
+		if bt, ok := sig.Params().At(0).Type().Underlying().(*types.Basic); !ok || bt.Info()&types.IsString == 0 {
+			continue
+		}
+		name := eng.FuncName(fn)
+		bad, skipped, k := "", "", 0
+		for _, in := range inputs {
+			got, err := eng.NewEvaluator().Call(fn, []any{in}, 0)
+			if err != nil && !err.Panic {
+				skipped = err.Msg
+				break
+			}
+			k++
+			if err != nil {
+				bad = fmt.Sprintf("%q: %s", in, err.Msg)
+				break
+			}
+			out, ok := got.(string)
+			if !ok {
+				skipped = "result is not a string"
+				break
+			}
+			if strings.ContainsAny(out, "\n\r") {
+				bad = fmt.Sprintf("%q becomes %q, which holds a line break: the table row is cut in two", in, out)
+				break
+			}
+			for i := 0; i < len(out); i++ {
+				if out[i] == '|' && (i == 0 || out[i-1] != '\\') {
+					bad = fmt.Sprintf("%q becomes %q, which holds a bare pipe: the cell is read as two cells", in, out)
+				}
+			}
+			if bad != "" {
+				break
+			}
+			if nonSpace(strings.ReplaceAll(out, "\\|", "|")) != nonSpace(in) {
+				bad = fmt.Sprintf("%q becomes %q: characters of the cell are lost or added", in, out)
+				break
+			}
+		}
+		if skipped != "" {
+			c.Ok(R, name, fn.Pos(), "not evaluated: "+skipped)
+			continue
+		}
+		n++
+		c.Check(bad == "", R, name+"#spec", fn.Pos(), fmt.Sprintf("%d texts evaluated", k), "the cell escaper does not keep a cell on one line in one cell: "+bad)
+	}
+	if n == 0 {
+		c.Ok(R, "module#escapers", token.NoPos, "no evaluable escapeMarkdown function: not evaluated")
+	}
+}
+
+// ---------------------------------------------------------------------------------------------------------------
+// R15.17 the pipe-table writers, read on small grids and parsed back.
+
+// buildTableValue builds a value of a table type (a struct with Rows, in one of the three layouts the module uses)
+// holding the grid of cell texts.
+func buildTableValue(t types.Type, grid [][]string) (any, bool) {
+	st, ok := t.Underlying().(*types.Struct)
+	if !ok {
+		return nil, false
+	}
+	tv := eng.ZeroOf(t).(*eng.EStruct)
+	field := func(s *types.Struct, name string) (types.Type, bool) {
+		for i := 0; i < s.NumFields(); i++ {
+			if s.Field(i).Name() == name {
+				return s.Field(i).Type(), true
+			}
+		}
+		return nil, false
+	}
+	mkCell := func(ct types.Type, text string) (any, bool) {
+		if bt, ok := ct.Underlying().(*types.Basic); ok && bt.Info()&types.IsString != 0 {
+			return text, true
+		}
+		cs, ok := ct.Underlying().(*types.Struct)
+		if !ok {
+			return nil, false
+		}
+		cell := eng.ZeroOf(ct).(*eng.EStruct)
+		if !eng.SetField(cell, ct, "Text", text) {
+			return nil, false
+		}
+		for _, nm := range []string{"ColSpan", "RowSpan"} {
+			if ft, ok := field(cs, nm); ok {
+				if bt, ok := ft.Underlying().(*types.Basic); ok && bt.Info()&types.IsInteger != 0 {
+					eng.SetField(cell, ct, nm, int64(1))
+				}
+			}
+		}
+		return cell, true
+	}
+	rowsT, ok := field(st, "Rows")
+	if !ok {
+		return nil, false
+	}
+	outer, ok := rowsT.Underlying().(*types.Slice)
+	if !ok {
+		return nil, false
+	}
+	body := grid
+	if ht, ok := field(st, "Headers"); ok {
+		if hs, ok := ht.Underlying().(*types.Slice); ok {
+			var hdr []any
+			for _, text := range grid[0] {
+				cv, ok := mkCell(hs.Elem(), text)
+				if !ok {
+					return nil, false
+				}
+				hdr = append(hdr, cv)
+			}
+			eng.SetField(tv, t, "Headers", eng.SliceOf(hdr...))
+			body = grid[1:]
+		}
+	}
+	var rows []any
+	for _, r := range body {
+		switch rt := outer.Elem().Underlying().(type) {
+		case *types.Slice:
+			var cells []any
+			for _, text := range r {
+				cv, ok := mkCell(rt.Elem(), text)
+				if !ok {
+					return nil, false
+				}
+				cells = append(cells, cv)
+			}
+			rows = append(rows, eng.SliceOf(cells...))
+		case *types.Struct:
+			ct, ok := field(rt, "Cells")
+			if !ok {
+				return nil, false
+			}
+			cs, ok := ct.Underlying().(*types.Slice)
+			if !ok {
+				return nil, false
+			}
+			var cells []any
+			for _, text := range r {
+				cv, ok := mkCell(cs.Elem(), text)
+				if !ok {
+					return nil, false
+				}
+				cells = append(cells, cv)
+			}
+			row := eng.ZeroOf(outer.Elem()).(*eng.EStruct)
+			eng.SetField(row, outer.Elem(), "Cells", eng.SliceOf(cells...))
+			rows = append(rows, row)
+		default:
+			return nil, false
+		}
+	}
+	eng.SetField(tv, t, "Rows", eng.SliceOf(rows...))
+	return tv, true
+}
+
+// parsePipeTable reads a GitHub-flavoured Markdown pipe table: rows of cells, the delimiter row dropped.
+func parsePipeTable(md string) ([][]string, string) {
+	if strings.Contains(md, "\r") {
+		return nil, "the table holds a carriage return, which ends a line for a Markdown parser"
+	}
+	var lines []string
+	for _, l := range strings.Split(md, "\n") {
+		if strings.TrimSpace(l) != "" {
+			lines = append(lines, l)
+		}
+	}
+	if len(lines) < 2 {
+		return nil, "fewer than two lines"
+	}
+	split := func(l string) []string {
+		l = strings.TrimSpace(l)
+		l = strings.TrimPrefix(l, "|")
+		var cells []string
+		cur := ""
+		for i := 0; i < len(l); i++ {
+			switch {
+			case l[i] == '\\' && i+1 < len(l) && l[i+1] == '|':
+				cur += "|"
+				i++
+			case l[i] == '|':
+				cells = append(cells, strings.TrimSpace(cur))
+				cur = ""
+			default:
+				cur += l[i : i+1]
+			}
+		}
+		if strings.TrimSpace(cur) != "" {
+			cells = append(cells, strings.TrimSpace(cur))
+		}
+		return cells
+	}
+	for _, d := range split(lines[1]) {
+		if strings.Trim(d, "-: ") != "" || !strings.Contains(d, "-") {
+			return nil, fmt.Sprintf("the second line %q is not a delimiter row", lines[1])
+		}
+	}
+	var out [][]string
+	for i, l := range lines {
+		if i == 1 {
+			continue
+		}
+		if !strings.HasPrefix(strings.TrimSpace(l), "|") {
+			return nil, fmt.Sprintf("line %q is not a table row", l)
+		}
+		out = append(out, split(l))
+	}
+	if len(split(lines[1])) != len(out[0]) {
+		return nil, "the delimiter row and the header row differ in their number of cells"
+	}
+	return out, ""
+}
+
+// R15.17 [C15]
+func rulePipeTablesReadBack(c *eng.Ctx) {
+	const R = "R15.17-PIPE-TABLES-READ-BACK"
+	c.Rule(R, "every ToMarkdown method without parameters of a table type of the module (model.Table and the ParsedTable types of docx, odt, htmldoc and xlsx), evaluated on 2x2, 3x2 and 2x3 grids whose cells hold plain text, a pipe, a line feed, a carriage return, CR LF, accented and CJK text or nothing: the answer, read by a pipe-table parser (rows on lines, cells between unescaped pipes, second line the delimiter row), has the rows and columns of the grid and the cell texts of the grid (white space aside)", 3, 0)
+	texts := []string{"a", "b|c", "line\nbreak", "", "é世界", "x\ry", "p\r\nq", "end|"}
+	var grids [][][]string
+	for _, shape := range [][2]int{{2, 2}, {3, 2}, {2, 3}} {
+		for start := 0; start < len(texts); start++ {
+			g := make([][]string, shape[0])
+			k := start
+			for i := range g {
+				g[i] = make([]string, shape[1])
+				for j := range g[i] {
+					g[i][j] = texts[k%len(texts)]
+					k++
+				}
+			}
+			// the header row holds plain names: what a header may contain is not what this rule is about
+			for j := range g[0] {
+				g[0][j] = fmt.Sprintf("h%d", j+1)
+			}
+			grids = append(grids, g)
+		}
+	}
+	n := 0
+	for _, fn := range c.P.ModuleFuncs() {
+		if fn.Blocks == nil || fn.Pkg == nil || fn.Parent() != nil || fn.Name() != "ToMarkdown" || fn.Signature.Recv() == nil || fn.Signature.Params().Len() != 0 || fn.Signature.Results().Len() != 1 {
+			continue
+		}
+		if strings.Contains(eng.ShortPath(fn.Pkg.Pkg.Path()), eng.PositivePkg) {
+			continue
+		}
+		rt := fn.Signature.Recv().Type()
+		isPtr := false
+		if p, ok := rt.Underlying().(*types.Pointer); ok {
+			rt = p.Elem()
+			isPtr = true
+		}
+		if !strings.HasSuffix(eng.TypeName(rt), "Table") {
+			continue
+		}
+		name := eng.FuncName(fn)
+		bad, skipped, k := "", "", 0
+		for _, g := range grids {
+			tv, ok := buildTableValue(rt, g)
+			if !ok {
+				skipped = "the table type is not one of the known layouts"
+				break
+			}
+			var recv any = tv
+			if isPtr {
+				loc := &eng.ELoc{V: tv}
+				recv = &eng.EPtr{Get: func() any { return loc.V }, Set: func(v any) { loc.V = v }}
+			}
+			got, err := eng.NewEvaluator().Call(fn, []any{recv}, 0)
+			if err != nil && !err.Panic {
+				skipped = err.Msg
+				break
+			}
+			k++
+			if err != nil {
+				bad = fmt.Sprintf("grid %q: %s", g, err.Msg)
+				break
+			}
+			md, _ := got.(string)
+			rows, why := parsePipeTable(md)
+			if why != "" {
+				bad = fmt.Sprintf("grid %q is written as %q: %s", g, md, why)
+				break
+			}
+			if len(rows) != len(g) {
+				bad = fmt.Sprintf("grid %q is written as %q: %d rows are read back, the grid has %d", g, md, len(rows), len(g))
+				break
+			}
+			for i := range g {
+				// trailing empty cells may be cut by the reader used here; compare the cells of the grid
+				for j := range g[i] {
+					cell := ""
+					if j < len(rows[i]) {
+						cell = rows[i][j]
+					}
+					if nonSpace(cell) != nonSpace(g[i][j]) {
+						bad = fmt.Sprintf("grid %q is written as %q: cell (%d,%d) reads back as %q", g, md, i, j, cell)
+					}
+				}
+				if len(rows[i]) > len(g[i]) {
+					bad = fmt.Sprintf("grid %q is written as %q: row %d reads back with %d cells", g, md, i, len(rows[i]))
+				}
+			}
+			if bad != "" {
+				break
+			}
+		}
+		if skipped != "" {
+			c.Ok(R, name, fn.Pos(), "not evaluated: "+skipped)
+			continue
+		}
+		n++
+		c.Check(bad == "", R, name+"#spec", fn.Pos(), fmt.Sprintf("%d grids evaluated and read back", k), "the Markdown table does not read back as the grid: "+bad)
+	}
+	if n == 0 {
+		c.Ok(R, "module#table-writers", token.NoPos, "no evaluable ToMarkdown table writer: not evaluated")
+	}
+}
+
+// ---------------------------------------------------------------------------------------------------------------
+// R3.14 what goes back into a pool carries nothing over.
+
+// R3.14 [C03]
+func rulePoolPutCarriesNoState(c *eng.Ctx) {
+	const R = "R3.14-POOL-PUT-CARRIES-NO-STATE"
+	c.Rule(R, "a slice handed to sync.Pool.Put is cut to length zero in the Put expression itself (x[:0]), and a bytes.Buffer or strings.Builder handed to Put was Reset by the same function before: the next Get, in another extraction or on another goroutine, continues with whatever the object holds, so an object put back on an error path with its contents (operands of a failed parse) makes the next result depend on the previous document", 0, 1)
+	n := 0
+	for _, fn := range c.P.ModuleFuncs() {
+		if fn.Blocks == nil || fn.Pkg == nil {
+			continue
+		}
+		for _, ci := range eng.Calls(fn, false, func(nm string, _ ssa.CallInstruction) bool { return nm == "sync.(*Pool).Put" }) {
+			args := eng.ArgsWithRecv(ci)
+			if len(args) < 2 {
+				continue
+			}
+			v := args[1]
+			if mi, ok := v.(*ssa.MakeInterface); ok {
+				v = mi.X
+			}
+			key := fmt.Sprintf("%s#pool.Put@%s", eng.FuncName(fn), c.P.Pos(ci.Pos()))
+			switch t := v.Type().Underlying().(type) {
+			case *types.Slice:
+				n++
+				ok := false
+				if sl, isSl := v.(*ssa.Slice); isSl && sl.High != nil {
+					if k, isC := eng.ConstInt(sl.High); isC && k == 0 {
+						ok = true
+					}
+				}
+				c.Check(ok, R, key, ci.Pos(), "the slice is cut to length zero where it is put back", "the slice handed to Put is not cut to length zero in the Put expression: on a path where it was not emptied (an error return) its elements go back into the pool and the next user of the pool starts with them")
+			case *types.Pointer:
+				nt, isNamed := t.Elem().(*types.Named)
+				if !isNamed || nt.Obj().Pkg() == nil {
+					continue
+				}
+				q := nt.Obj().Pkg().Path() + "." + nt.Obj().Name()
+				if q != "bytes.Buffer" && q != "strings.Builder" {
+					continue
+				}
+				n++
+				reset := false
+				root := fn
+				if fn.Parent() != nil {
+					root = fn.Parent()
+				}
+				eng.Instrs(root, true, func(in ssa.Instruction) {
+					if rc, ok := in.(ssa.CallInstruction); ok {
+						if nm := eng.CalleeName(rc); strings.HasSuffix(nm, ").Reset") || strings.HasSuffix(nm, ").Truncate") {
+							reset = true
+						}
+					}
+				})
+				c.Check(reset, R, key, ci.Pos(), "the buffer is reset by the function that puts it back", "the buffer handed to Put is never Reset by this function: what the previous user wrote is still in it when the next user gets it")
+			}
+		}
+	}
+	c.Ok(R, "module#scanned", token.NoPos, fmt.Sprintf("%d slices and buffers put back into a pool", n))
 }
